@@ -85,9 +85,12 @@ def run_impl(c):
     except Exception as e:
         return {"build_raise": type(e).__name__, "ops": []}
     out = []
+    shared = [0, 0] if (len(c["ops"]) + c["bins"]) % 2 else None          # half of the histories query with one list object, updated in place (a pen position)
     for kind, arg in c["ops"]:
         try:
-            if kind == "q": out.append(("q", ix.nearest([arg[0], arg[1]])))
+            if kind == "q" and shared is not None:
+                shared[0], shared[1] = arg[0], arg[1]; out.append(("q", ix.nearest(shared)))
+            elif kind == "q": out.append(("q", ix.nearest([arg[0], arg[1]])))
             else: ix.remove_path(arg); out.append(("r", None))
         except Exception as e:
             out.append(("x", type(e).__name__))
